@@ -1,25 +1,539 @@
 package zsim
 
-import "errors"
+import (
+	"fmt"
+	"io"
+	"io/fs"
+	"sort"
+	"strings"
+	"syscall"
+	"time"
+)
 
-// placeholder kernel – replaced when the prefork profile is built
-type Kernel struct{}
+// Kernel is the simulated operating system of the prefork profile: processes, FIFOs with
+// POSIX semantics, one listening socket type with a shared accept queue, byte-stream
+// connections, exec/wait, exit/kill. Deviations from a real kernel: the accept backlog is
+// unbounded; FIFO writes are whole frames (<= PIPE_BUF, atomic); pids are never reused.
 
-type FD struct{ Num int }
+type Kernel struct {
+	w        *World
+	procs    map[int]*Proc
+	nextPid  int
+	fifos    map[string]*Fifo
+	Programs map[string]func() // argv[0] -> program main
+	Listeners []*ListenSock
+	Events   []KEvent // ground truth for the oracles
+}
 
-func (f *FD) Read(b []byte) (int, error)  { return 0, errors.New("nokernel") }
-func (f *FD) Write(b []byte) (int, error) { return 0, errors.New("nokernel") }
-func (f *FD) Close() error                { return nil }
+type KEvent struct {
+	Seq  uint64
+	At   time.Duration
+	Kind string // spawn exit kill accept fatal
+	Pid  int
+	Info string
+}
 
-func (k *Kernel) OpenFile(name string, flag int) (*FD, error) { return nil, errors.New("nokernel") }
-func (k *Kernel) LookupFD(n int) *FD                          { return nil }
-func (k *Kernel) Getenv(key string) string                    { return "" }
-func (k *Kernel) Environ() []string                           { return nil }
-func (k *Kernel) Getpid() int                                 { return 1 }
-func (k *Kernel) Getppid() int                                { return 0 }
-func (k *Kernel) Exit(code int)                               {}
+type Proc struct {
+	Pid, PPid int
+	Args      []string
+	Env       []string
+	fds       map[int]*FD
+	tasks     []*Task
+	Exited    bool
+	ExitCode  int
+	Killed    bool
+	StartAt   time.Duration
+	ExitAt    time.Duration
+	Name      string
+	sigDeliver []func(sig string)
+	conns     []*ConnEnd
+	SlowStart time.Duration
+	Ext       map[string]interface{}
+}
+
+func NewKernel(w *World) *Kernel {
+	k := &Kernel{w: w, procs: map[int]*Proc{}, nextPid: 100, fifos: map[string]*Fifo{}, Programs: map[string]func(){}}
+	w.K = k
+	return k
+}
+
+func (k *Kernel) event(kind string, pid int, info string) {
+	k.w.Logf("K %s pid=%d %s", kind, pid, info)
+	k.Events = append(k.Events, KEvent{Seq: k.w.seq, At: k.w.Now(), Kind: kind, Pid: pid, Info: info})
+}
+
+// NewProc creates a process (not yet running anything).
+func (k *Kernel) NewProc(name string, ppid int, args, env []string) *Proc {
+	k.nextPid++
+	p := &Proc{Pid: k.nextPid, PPid: ppid, Args: args, Env: env, fds: map[int]*FD{}, Name: name, StartAt: k.w.Now(), Ext: map[string]interface{}{}}
+	k.procs[p.Pid] = p
+	return p
+}
+
+func (k *Kernel) Proc(pid int) *Proc { return k.procs[pid] }
+
+// Procs returns all processes sorted by pid.
+func (k *Kernel) Procs() []*Proc {
+	var out []*Proc
+	for _, p := range k.procs {
+		out = append(out, p)
+	}
+	sort.Slice(out, func(i, j int) bool { return out[i].Pid < out[j].Pid })
+	return out
+}
+
+func (k *Kernel) cur() *Proc {
+	if t := curTask(); t != nil && t.Proc != nil {
+		return t.Proc
+	}
+	return nil
+}
+
+func (k *Kernel) Getpid() int {
+	if p := k.cur(); p != nil {
+		return p.Pid
+	}
+	return 1
+}
+
+func (k *Kernel) Getppid() int {
+	p := k.cur()
+	if p == nil {
+		return 0
+	}
+	if pp := k.procs[p.PPid]; pp == nil || pp.Exited {
+		return 1 // re-parented to init
+	}
+	return p.PPid
+}
+
+func (k *Kernel) Getenv(key string) string {
+	p := k.cur()
+	if p == nil {
+		return ""
+	}
+	val := ""
+	for _, kv := range p.Env {
+		if strings.HasPrefix(kv, key+"=") {
+			val = kv[len(key)+1:]
+		}
+	}
+	return val
+}
+
+func (k *Kernel) Environ() []string {
+	if p := k.cur(); p != nil {
+		return append([]string(nil), p.Env...)
+	}
+	return nil
+}
+
+// ---------------------------------------------------------------- descriptors
+
+type FD struct {
+	Num    int
+	proc   *Proc
+	kind   string // fifo-r fifo-w listener conn
+	fifo   *Fifo
+	lsock  *ListenSock
+	conn   *ConnEnd
+	closed bool
+}
+
+func (p *Proc) addFD(f *FD, at int) *FD {
+	n := at
+	if n < 0 {
+		n = 3
+		for p.fds[n] != nil {
+			n++
+		}
+	}
+	f.Num, f.proc = n, p
+	p.fds[n] = f
+	return f
+}
+
+func (k *Kernel) LookupFD(n int) *FD {
+	if p := k.cur(); p != nil {
+		return p.fds[n]
+	}
+	return nil
+}
+
+func (f *FD) Kind() string          { return f.kind }
+func (f *FD) Listener() *ListenSock { return f.lsock }
+func (f *FD) Conn() *ConnEnd        { return f.conn }
+
+func (f *FD) Read(b []byte) (int, error) {
+	if Dying() {
+		return 0, io.EOF
+	}
+	if f.closed {
+		return 0, fs.ErrClosed
+	}
+	switch f.kind {
+	case "fifo-r":
+		return f.fifo.read(b)
+	case "conn":
+		return f.conn.Read(b)
+	}
+	return 0, syscall.EBADF
+}
+
+func (f *FD) Write(b []byte) (int, error) {
+	if Dying() {
+		return len(b), nil
+	}
+	if f.closed {
+		return 0, fs.ErrClosed
+	}
+	switch f.kind {
+	case "fifo-w":
+		return f.fifo.write(b)
+	case "conn":
+		return f.conn.Write(b)
+	}
+	return 0, syscall.EBADF
+}
+
+func (f *FD) Close() error {
+	if f.closed {
+		return fs.ErrClosed
+	}
+	f.closed = true
+	switch f.kind {
+	case "fifo-r":
+		f.fifo.readers--
+	case "fifo-w":
+		f.fifo.writers--
+		if f.fifo.writers == 0 {
+			Probe("fifo-had-zero-writers")
+		}
+	case "listener":
+		f.lsock.refs--
+	case "conn":
+		f.conn.close()
+	}
+	if f.proc != nil {
+		delete(f.proc.fds, f.Num)
+	}
+	return nil
+}
+
+// ---------------------------------------------------------------- FIFO
+
+type Fifo struct {
+	path         string
+	buf          []byte
+	readers      int
+	writers      int
+	everWriter   bool
+}
+
+func (k *Kernel) Mkfifo(path string) error {
+	if _, ok := k.fifos[path]; ok {
+		return syscall.EEXIST
+	}
+	k.fifos[path] = &Fifo{path: path}
+	return nil
+}
+
+const (
+	oRDONLY = 0
+	oWRONLY = 1
+)
+
+// OpenFile opens a FIFO; as in POSIX, opening one end blocks until the other end exists.
+func (k *Kernel) OpenFile(path string, flag int) (*FD, error) {
+	ff, ok := k.fifos[path]
+	if !ok {
+		return nil, &fs.PathError{Op: "open", Path: path, Err: syscall.ENOENT}
+	}
+	p := k.cur()
+	if flag&3 == oWRONLY {
+		ff.writers++
+		ff.everWriter = true
+		fd := p.addFD(&FD{kind: "fifo-w", fifo: ff}, -1)
+		Block("fifo.open-w", func() bool { return ff.readers > 0 })
+		return fd, nil
+	}
+	ff.readers++
+	fd := p.addFD(&FD{kind: "fifo-r", fifo: ff}, -1)
+	Block("fifo.open-r", func() bool { return ff.writers > 0 || len(ff.buf) > 0 })
+	return fd, nil
+}
+
+func (ff *Fifo) read(b []byte) (int, error) {
+	Block("fifo.read", func() bool { return len(ff.buf) > 0 || ff.writers == 0 })
+	if len(ff.buf) == 0 {
+		return 0, io.EOF // no writer left: end of file, exactly as read(2) on a FIFO
+	}
+	n := copy(b, ff.buf)
+	ff.buf = ff.buf[n:]
+	return n, nil
+}
+
+func (ff *Fifo) write(b []byte) (int, error) {
+	if ff.readers == 0 {
+		return 0, syscall.EPIPE
+	}
+	ff.buf = append(ff.buf, b...)
+	Yield("fifo.write")
+	return len(b), nil
+}
+
+// ---------------------------------------------------------------- sockets
+
+type ListenSock struct {
+	Addr    string
+	queue   []*ConnEnd // server ends waiting to be accepted
+	refs    int
+	Closed  bool
+	k       *Kernel
+}
+
+type ConnEnd struct {
+	peer     *ConnEnd
+	in       []byte
+	closed   bool // this end closed
+	ID       int
+	k        *Kernel
+	Accepted bool
+	AcceptPid int
+}
+
+func (k *Kernel) Listen(addr string) *FD {
+	ls := &ListenSock{Addr: addr, k: k, refs: 1}
+	k.Listeners = append(k.Listeners, ls)
+	return k.cur().addFD(&FD{kind: "listener", lsock: ls}, -1)
+}
+
+// DupFD duplicates a descriptor into the current process (l.File()).
+func (k *Kernel) DupFD(f *FD) *FD {
+	nf := &FD{kind: f.kind, fifo: f.fifo, lsock: f.lsock, conn: f.conn}
+	switch f.kind {
+	case "listener":
+		f.lsock.refs++
+	case "fifo-w":
+		f.fifo.writers++
+	case "fifo-r":
+		f.fifo.readers++
+	}
+	return k.cur().addFD(nf, -1)
+}
+
+var connSeq int
+
+// Dial connects a client to the listening socket; the server end waits in the shared accept queue.
+func (k *Kernel) Dial(ls *ListenSock) (*ConnEnd, error) {
+	if ls.Closed || ls.refs <= 0 {
+		return nil, syscall.ECONNREFUSED
+	}
+	connSeq++
+	c := &ConnEnd{k: k, ID: connSeq}
+	s := &ConnEnd{k: k, ID: connSeq}
+	c.peer, s.peer = s, c
+	ls.queue = append(ls.queue, s)
+	return c, nil
+}
+
+func (ls *ListenSock) Backlog() int { return len(ls.queue) }
+
+// Accept blocks until a connection is queued; which blocked acceptor gets it is decided by
+// which one the scheduler runs first.
+func (ls *ListenSock) Accept() (*ConnEnd, error) {
+	if Dying() {
+		return nil, syscall.EBADF
+	}
+	for {
+		Block("accept", func() bool { return len(ls.queue) > 0 || ls.Closed })
+		if len(ls.queue) > 0 {
+			c := ls.queue[0]
+			ls.queue = ls.queue[1:]
+			c.Accepted = true
+			c.AcceptPid = ls.k.Getpid()
+			if p := ls.k.cur(); p != nil {
+				p.conns = append(p.conns, c)
+			}
+			ls.k.event("accept", c.AcceptPid, fmt.Sprintf("conn %d", c.ID))
+			return c, nil
+		}
+		if ls.Closed {
+			return nil, syscall.EBADF
+		}
+	}
+}
+
+func (c *ConnEnd) Read(b []byte) (int, error) {
+	if Dying() {
+		return 0, io.EOF
+	}
+	Block("conn.read", func() bool { return len(c.in) > 0 || c.peer.closed || c.closed })
+	if c.closed {
+		return 0, fs.ErrClosed
+	}
+	if len(c.in) == 0 {
+		return 0, io.EOF
+	}
+	n := copy(b, c.in)
+	c.in = c.in[n:]
+	return n, nil
+}
+
+func (c *ConnEnd) Write(b []byte) (int, error) {
+	if Dying() {
+		return len(b), nil
+	}
+	if c.closed {
+		return 0, fs.ErrClosed
+	}
+	if c.peer.closed {
+		return 0, syscall.EPIPE
+	}
+	c.peer.in = append(c.peer.in, b...)
+	Yield("conn.write")
+	return len(b), nil
+}
+
+func (c *ConnEnd) close()        { c.closed = true }
+func (c *ConnEnd) Close() error  { c.close(); return nil }
+func (c *ConnEnd) PeerClosed() bool { return c.peer.closed }
+
+// ---------------------------------------------------------------- exec / exit / kill
+
+// StartProc starts argv[0]'s registered program in a new process (exec.Cmd.Start).
+func (k *Kernel) StartProc(args, env []string, extra []*FD) (*Proc, error) {
+	prog, ok := k.Programs[args[0]]
+	if !ok {
+		return nil, &fs.PathError{Op: "fork/exec", Path: args[0], Err: syscall.ENOENT}
+	}
+	parent := k.cur()
+	p := k.NewProc(args[0], parent.Pid, args, env)
+	for i, f := range extra {
+		nf := &FD{kind: f.kind, fifo: f.fifo, lsock: f.lsock, conn: f.conn}
+		if f.kind == "listener" {
+			f.lsock.refs++
+		}
+		p.addFD(nf, 3+i)
+	}
+	k.event("spawn", p.Pid, fmt.Sprintf("by %d", parent.Pid))
+	delay := p.SlowStart
+	if h, ok := k.w.Ext["spawn-delay"].(func(*Proc) time.Duration); ok {
+		delay = h(p)
+	}
+	k.w.Spawn(p, fmt.Sprintf("main[%d]", p.Pid), func() {
+		if delay > 0 {
+			Sleep(delay)
+		}
+		prog()
+		// main returned: the process exits with status 0
+		k.exitProc(p, 0, true)
+	})
+	return p, nil
+}
+
+// Exit ends the current process (os.Exit): never returns.
+func (k *Kernel) Exit(code int) {
+	if Dying() {
+		return
+	}
+	p := k.cur()
+	k.exitProc(p, code, true)
+}
+
+func (k *Kernel) exitProc(p *Proc, code int, parkCurrent bool) {
+	if p == nil {
+		return
+	}
+	if !p.Exited {
+		p.Exited, p.ExitCode, p.ExitAt = true, code, k.w.Now()
+		k.event("exit", p.Pid, fmt.Sprintf("status %d", code))
+		var nums []int
+		for n := range p.fds {
+			nums = append(nums, n)
+		}
+		sort.Ints(nums)
+		for _, n := range nums {
+			p.fds[n].Close()
+		}
+		for _, c := range p.conns {
+			c.close()
+		}
+		for _, t := range p.tasks {
+			if t.state != tsDone && t != curTask() {
+				t.state = tsFrozen
+			}
+		}
+	}
+	if parkCurrent {
+		if t := curTask(); t != nil && t.Proc == p {
+			k.w.sched.freezeCurrent()
+		}
+	}
+}
+
+// Kill delivers SIGKILL to pid (from a task of another process or from the driver).
+func (k *Kernel) Kill(pid int) error {
+	p := k.procs[pid]
+	if p == nil || p.Exited {
+		return syscall.ESRCH
+	}
+	p.Killed = true
+	k.event("kill", pid, "SIGKILL")
+	k.exitProc(p, -9, false)
+	if t := curTask(); t != nil && t.Proc == p {
+		k.w.sched.freezeCurrent()
+	}
+	return nil
+}
+
+// WaitProc blocks until the process has exited (cmd.Wait).
+func (k *Kernel) WaitProc(p *Proc) int {
+	if Dying() {
+		return 0
+	}
+	Block("wait", func() bool { return p.Exited })
+	return p.ExitCode
+}
+
+// Live lists live worker processes (children of ppid; any parent when ppid == 0).
+func (k *Kernel) Live(ppid int) []*Proc {
+	var out []*Proc
+	for _, p := range k.Procs() {
+		if !p.Exited && (ppid == 0 || p.PPid == ppid) {
+			out = append(out, p)
+		}
+	}
+	return out
+}
+
+// Signals
+
+// Notify registers a signal deliverer for the current process (signal.Notify).
+func (k *Kernel) Notify(deliver func(sig string)) {
+	if p := k.cur(); p != nil {
+		p.sigDeliver = append(p.sigDeliver, deliver)
+	}
+}
+
+// Signal delivers a signal to pid (harness side).
+func (k *Kernel) Signal(pid int, sig string) {
+	if p := k.procs[pid]; p != nil && !p.Exited {
+		k.event("signal", pid, sig)
+		for _, d := range p.sigDeliver {
+			d(sig)
+		}
+	}
+}
 
 var argsSwap func([]string)
 var realArgs []string
 
 func RegisterArgsSwap(f func([]string), real []string) { argsSwap = f; realArgs = real }
+
+// Fatal is log.Fatal*: records the call site and exits the current process with status 1.
+func (k *Kernel) Fatal(site, msg string) {
+	p := k.cur()
+	k.event("fatal", pidOf(p), site+": "+msg)
+	k.exitProc(p, 1, true)
+}
